@@ -14,7 +14,10 @@ rc=0
 for pkg in $(ls -d san*/ 2>/dev/null | tr -d /); do
   if [ -f "$pkg/Cargo.toml" ]; then
     echo "san/setup: building $pkg under Miri"
-    MIRIFLAGS="-Zmiri-disable-isolation -Zmiri-ignore-leaks" cargo +nightly miri run -q -p "$pkg" -- 0 0 1 quick none 2>&1 | tail -2 || rc=1
+    flags=""
+    # san35 is built with the AVX features lance-linalg's SIMD wrappers assume (see legs/leg.py)
+    [ "$pkg" = "san35" ] && flags="-C target-feature=+avx,+avx2,+fma"
+    RUSTFLAGS="$flags" MIRIFLAGS="-Zmiri-disable-isolation -Zmiri-ignore-leaks" timeout 3600 cargo +nightly miri run -q -p "$pkg" -- 0 0 1 quick none 2>&1 | tail -2 || rc=1
   fi
 done
 exit $rc
